@@ -256,6 +256,8 @@ def h_symval(ki: int, v: bytes) -> bool:
             return _fail("root hash differs from the Yellow Paper root for a symbolic value content")
         if t.get(key) != v:
             return _fail("get after set of a symbolic value returned something else")
+        if t.exists(key) is not True or (key in t) is not True:
+            return _fail("exists / in deny a key that was just stored with a non-empty (symbolic) value")
         if prune and "exact" in CFG["checks"]:
             db2 = mpt.db_of(m2)
             if set(db) != set(db2):
@@ -277,6 +279,6 @@ def symval_jobs(tier, checks, seed, prunes):
     out = []
     for mi in idx:
         for prune in prunes:
-            for vlen in (1, 29, 33):
+            for vlen in (1, 29, 32, 33):
                 out.append({"module": "vf.props.hexstep", "fn": "h_symval", "cfg": dict(base, mi=mi, prune=prune, vlen=vlen), "pct": 2400, "ppt": 120})
     return out
